@@ -43,4 +43,6 @@ def prog_case(name, prog, rng=None, mode="lines", opts=None, info=None, line=Fal
     expect = structsem.run(prog)
     inf = {"src": src, "expect": expect, "check_class": check_class}
     inf.update(info or {})
-    return C.Case(name, [run_req(src, **(opts or {}))], cmp_run(line=line), struct_oracle, info=inf, nontrivial=nontrivial)
+    o = dict(opts or {})
+    o.setdefault("spec", 1)   # also ask the model for unflatten + the Lean structured semantics (Spec/Sem.lean)
+    return C.Case(name, [run_req(src, **o)], cmp_run(line=line), struct_oracle, info=inf, nontrivial=nontrivial)
